@@ -206,8 +206,10 @@ impl File {
         Self::background_sync_call(
             move || {
                #[cfg(feature = "pearl_verif")]
-               let _verif_io = crate::verif::io::on_sync(&file_inner.std_file)?;
+               let mut _verif_io = crate::verif::io::on_sync(&file_inner.std_file)?;
                file_inner.std_file.sync_all()?;
+               #[cfg(feature = "pearl_verif")]
+               _verif_io.performed();
                file_inner.synced_size.fetch_max(size, Ordering::SeqCst);
                Ok(())
             }
